@@ -284,7 +284,7 @@ def run_result(rng, rec, log, scratch, idx):
     from glotaran.io import SAVING_OPTIONS_DEFAULT, SAVING_OPTIONS_MINIMAL, SavingOptions, load_result, save_result
     from glotaran.optimization.optimize import optimize
 
-    case = c02.fix_groups(S.gen_case(rng, features={"nnls": False}))
+    case = c02.fix_groups(S.gen_case(rng, features={"nnls": False}, label_pool=str(rng.choice(["plain", "dotted", "underscore", "case"]))))
     jc = S.jsonable_case(case)
     opt_name, opts = [("default", SAVING_OPTIONS_DEFAULT), ("minimal", SAVING_OPTIONS_MINIMAL), ("no-report", SavingOptions(report=False))][int(rng.integers(3))]
     target_kind = str(rng.choice(["absolute", "relative"]))
